@@ -371,9 +371,9 @@ def build_table(I):
 
     @reg("f64::is_finite")
     def f_is_finite(I, st, a, c):
-        if I.mode == "float":
-            return math.isfinite(a[0])
-        return True
+        if I.mode == "float" or not is_sym(a[0]):
+            return math.isfinite(float(a[0]))
+        raise _i.Unsupported("f64::is_finite on a symbolic value (NaN / infinity are outside the exact-real encoding)")
 
     @reg("f64::is_sign_negative")
     def f_is_sign_negative(I, st, a, c):
@@ -395,9 +395,11 @@ def build_table(I):
 
     @reg("f64::is_nan")
     def f_isnan(I, st, a, c):
-        if I.mode == "float":
-            return math.isnan(a[0])
-        return False
+        if I.mode == "float" or not is_sym(a[0]):
+            return math.isnan(float(a[0]))
+        # exact-real semantics has no NaN: code that DETECTS a domain error (acos/asin of |x| > 1, sqrt of a negative, 0/0) through
+        # is_nan cannot be decided here - answering `false` would silently drop the error path (a seeded change did exactly that)
+        raise _i.Unsupported("f64::is_nan on a symbolic value (NaN is outside the exact-real encoding)")
 
     # arithmetic via operator traits (generic code with Self = f64)
     def _vals(I, st, a):
